@@ -78,6 +78,12 @@ def r18_1(ctx):
                 ctx.violation(f"ok-iff-success:{key}", f"from_ember_status({m!r}) = {r!r}: the result must be OK exactly for the success code", func=f)
             else:
                 ctx.ok(1, key)
+            # the conversion is a function of its argument alone: the same value converted again (module-level state such as
+            # an "already reported" set or a cache has now seen it) gives the same answer
+            p2 = run_conv(ctx, px, sl, f, m)
+            same = p2.terminal == p.terminal and (p2.value == p.value if p.terminal == "return" else True)
+            ctx.require(same, f"repeatable:{fam}:{'defined' if v in by_val else 'undefined'}", f"from_ember_status({m!r}) converted a second time: {p2.terminal} {p2.value!r}, "
+                        f"the first time {p.terminal} {p.value!r}; the result must not depend on earlier conversions", func=f)
     ctx.sample({"EmberStatus.NETWORK_BUSY": repr(run_conv(ctx, px, sl, f, repo.cls(NAMED, "EmberStatus").members()["NETWORK_BUSY"]).value)})
 
 
